@@ -664,4 +664,102 @@ Section SccFull.
       + intros c [].
     - exact X3.
   Qed.
+
+  (* ---------------- only nodes of the graph are ever numbered ---------------- *)
+  Definition succ_rel (u w : T) : Prop := In w (name_row teqb (successors g) u).
+  Definition smutual (x y : T) : Prop := reach succ_rel x y /\ reach succ_rel y x.
+
+  Hypothesis ord_perm : forall l x, In x (ord l) <-> In x l.
+  Hypothesis succ_closed : forall u w, succ_rel u w -> In w (get_all_node_names g).
+
+  Lemma E_succ : forall u w, E u w <-> succ_rel u w.
+  Proof. intros u w. unfold E, succ_rel, scc_nbrs. apply ord_perm. Qed.
+
+  Lemma mutual_smutual : forall x y, mutual x y <-> smutual x y.
+  Proof.
+    intros x y. unfold mutual, smutual, R.
+    split; intros [H1 H2]; split; (eapply reach_ext; [ | eassumption ]; intros a b; apply E_succ).
+  Qed.
+
+  Lemma scc_inner_names : forall fuel queue s s',
+    scc_inner teqb ord fuel g queue s = Ok s' ->
+    (forall q, In q queue -> In q (get_all_node_names g)) ->
+    (forall x, numbered teqb (s_pre s) x -> In x (get_all_node_names g)) ->
+    (forall x, numbered teqb (s_pre s') x -> In x (get_all_node_names g)).
+  Proof.
+    induction fuel as [ | f IH ]; intros queue s s' H Hq Hp; cbn [scc_inner] in H; [discriminate | ].
+    destruct queue as [ | v qt ]; [inversion H; subst; exact Hp | ].
+    set (s1 := if contains_key teqb v (s_pre s) then s
+               else mks (insert teqb v (S (s_ctr s)) (s_pre s)) (s_low s) (s_found s) (s_sccq s)
+                        (S (s_ctr s)) (s_comps s)) in *.
+    assert (Hp1 : forall x, numbered teqb (s_pre s1) x -> In x (get_all_node_names g)).
+    { unfold s1. destruct (contains_key teqb v (s_pre s)); [exact Hp | ]. cbn [s_pre].
+      intros x Hx. apply (numbered_insert_inv teqb teqb_spec) in Hx. destruct Hx as [-> | Hx]; [apply Hq; cbn; tauto | apply Hp; exact Hx]. }
+    clearbody s1.
+    destruct (find _ (scc_nbrs teqb ord g v)) as [w | ] eqn:Ef.
+    - apply find_some in Ef. destruct Ef as [Hin _]. apply (IH _ _ _ H); [ | exact Hp1].
+      intros q [<- | Hq']; [ | apply Hq; exact Hq']. apply (succ_closed v w). apply E_succ. exact Hin.
+    - destruct (lookup teqb v (s_pre s1)) as [pv | ]; [ | discriminate].
+      destruct (lowlink_pass _ _ _ _ _ _ _) as [lw | | | ]; cbn [bind] in H; try discriminate.
+      destruct (lookup teqb v lw) as [l | ]; [ | discriminate].
+      destruct (Nat.eqb l pv).
+      + destruct (popq teqb (s_pre s1) v (s_sccq s1) [v]) as [scc q'].
+        apply (IH _ _ _ H); [intros q Hq'; apply Hq; cbn; tauto | exact Hp1].
+      + apply (IH _ _ _ H); [intros q Hq'; apply Hq; cbn; tauto | exact Hp1].
+  Qed.
+
+  Lemma outer_names : forall fuel names s s',
+    ofold (fun s src => if mem_name teqb src (s_found s) then Ok s
+                        else scc_inner teqb ord fuel g [src] s) names s = Ok s' ->
+    incl names (get_all_node_names g) ->
+    (forall x, numbered teqb (s_pre s) x -> In x (get_all_node_names g)) ->
+    (forall x, numbered teqb (s_pre s') x -> In x (get_all_node_names g)).
+  Proof.
+    intros fuel. induction names as [ | src t IH ]; intros s s' H Hin Hp; cbn [ofold] in H.
+    - inversion H; subst. exact Hp.
+    - assert (Ht : incl t (get_all_node_names g)) by (intros z Hz; apply Hin; cbn; tauto).
+      destruct (mem_name teqb src (s_found s)); cbn [bind] in H.
+      + apply (IH _ _ H Ht Hp).
+      + destruct (scc_inner teqb ord fuel g [src] s) as [s1 | | | ] eqn:Ei; cbn [bind] in H; try discriminate.
+        apply (IH _ _ H Ht). apply (scc_inner_names _ _ _ _ Ei); [ | exact Hp].
+        intros q [<- | []]. apply Hin. cbn. tauto.
+  Qed.
+
+  (* strongly_connected_components IS the partition of the node list into the classes of
+     mutual reachability along the successor relation, for every neighbour order that is a
+     permutation of each successor set, whenever successors are nodes of the graph *)
+  Theorem scc_correct : forall cs,
+    strongly_connected_components teqb ord g = Ok cs ->
+    is_component_partition (get_all_node_names g) smutual cs.
+  Proof.
+    intros cs H. destruct (scc_partition teqb teqb_spec ord g cs H) as [Hne [Hnd Hcov]].
+    pose proof (scc_classes cs H) as Hcl.
+    split; [exact Hne | split; [exact Hnd | split ] ].
+    - intros x. split; [apply Hcov | ]. intros Hx.
+      (* members are numbered nodes, numbered nodes are nodes of the graph *)
+      unfold strongly_connected_components in H.
+      destruct (ensure_directed g); cbn [bind] in H; try discriminate.
+      destruct (ofold _ (get_all_node_names g) (mks [] [] [] [] 0 [])) as [s | | | ] eqn:Eo; cbn [bind] in H;
+        try discriminate.
+      inversion H; subst cs.
+      destruct (outer_inv teqb teqb_spec ord g _ _ _ _ Eo) as [Rv _].
+      { constructor; cbn [s_pre s_low s_found s_sccq s_ctr s_comps].
+        - intros z. cbn. tauto.
+        - constructor.
+        - intros c [].
+        - intros z [].
+        - reflexivity.
+        - intros z [p Hp]. discriminate.
+        - intros z pz Hp. discriminate.
+        - intros w l Hl. discriminate. }
+      apply (outer_names _ _ _ _ Eo (incl_refl _)).
+      + intros z [p Hp]. discriminate.
+      + apply (r_found_num _ _ Rv). apply (r_comps _ _ Rv). exact Hx.
+    - intros c x y Hc Hx _. destruct (Hcl c Hc) as [v Hv]. rewrite Hv, <- mutual_smutual.
+      apply Hv in Hx. destruct Hx as [Hvx Hxv]. split; intros [H1 H2]; split.
+      + eapply R_trans; eassumption.
+      + eapply R_trans; eassumption.
+      + eapply R_trans; eassumption.
+      + eapply R_trans; eassumption.
+  Qed.
 End SccFull.
